@@ -296,8 +296,8 @@ func (r *Run) Finish() int {
 	for _, l := range knownLines {
 		fmt.Println(l)
 	}
-	fmt.Printf("%s %s: evaluations=%d distinct_nontrivial=%d exhaustive=%v violations=%d wall=%.1fs\n",
-		r.Prop, r.Tier, ev, nt, r.exhaustive, r.nviol, time.Since(r.start).Seconds())
+	fmt.Printf("%s %s: evaluations=%d distinct_nontrivial=%d exhaustive=%v violations=%d unstable=%d wall=%.1fs\n",
+		r.Prop, r.Tier, ev, nt, r.exhaustive, r.nviol, r.unstable, time.Since(r.start).Seconds())
 	for _, b := range r.bounds {
 		fmt.Println("  bound:", b)
 	}
